@@ -592,6 +592,9 @@ def t_a2b(ctx: Ctx, rule: str) -> None:
                                              and ast.unparse(c.func.value) == f"{root}.results")]
         if any(r < a1 for r in removals):
             problems.append(("the reservation on the object root is dropped before the first creation step is awaited", view))
+        if not removals and view.path.exit in ("return", "fall", "raise"):
+            problems.append(("the UNKNOWN reservation on the object root is never removed on this exit: the root keeps a pending result forever "
+                             "(it counts as a try for every later decision and the node never gets a definite status)", view))
         for r in removals:
             later = [i for i, a in aws if i > r]
             if later:
